@@ -335,10 +335,7 @@ def make_client(kind, line, neighbour=True, **kw):
         c = csync.ModbusSerialClient(method=kind.split('-')[1], port='fake', baudrate=19200, **kw)
         c.socket = FakeSerial(line, kw['timeout'])
     elif kind == 'tls':
-        c = csync.ModbusTlsClient('peer', **kw)            # the record layer is not modelled: PDUs go over the fake stream socket
-        c.socket = FakeSocket(line)
-
-        class _Ctx(object):                                # what connect() wraps a new socket with when it reconnects
+        class _Ctx(object):                                # stands for the SSL context: what connect() wraps a new socket with
             def wrap_socket(self, sock, **k):
                 line.reconnects += 1
                 line.rx = []
@@ -346,7 +343,9 @@ def make_client(kind, line, neighbour=True, **kw):
                 s2 = FakeSocket(line)
                 s2.connect = lambda addr: None
                 return s2
-        c.sslctx = _Ctx()
+        # the record layer is not modelled: PDUs go over the fake stream socket
+        c = csync.ModbusTlsClient('peer', sslctx=_Ctx(), **kw)
+        c.socket = FakeSocket(line)
     elif kind == 'udp':
         c = csync.ModbusUdpClient('127.0.0.1', **kw)
         c.socket = FakeUdp(line, kw['timeout'])
